@@ -75,6 +75,12 @@ CLAIMED["C10"] = dict(
    technique="Lean 4 inductive invariants (arithmetic + list) over an unbounded-thread LTS + schedule-controlled correspondence with the real crate",
    design="§6 C10")
 
+CLAIMED["C17"] = dict(
+   text="Lean 4 theorems about AsyncProto (one direction of one adapter: task, one-shot registration, peer; every chunking and every placement of the loop's reports) from an inductive invariant: conservation (read + held = written), no_lost_wake (a parked task with a ready fd has its registration armed and queued, so the next wait wakes it — including progress made between the WouldBlock and the arming, which the MOD re-evaluates), parked_is_armed, task_state_exclusive, flags_and_registration (non-blocking while alive; previous mode restored and nothing left in the poller after drop / into_inner). Real transfers over socketpairs (reader and writer tasks on the calloop executor, chunk sizes 1..200000, totals up to 700000 bytes so that the socket buffer fills) are judged by the same clauses and compared with the model at quiescent points.",
+   note="PARTIAL: the byte transport is the kernel's; content and order are checked on real runs with a position-dependent pattern, not proved. The send-buffer size is not modelled (large writes are judged by the clauses only). Single waiter per adapter (the &mut self API). Trusted: Lean kernel + standard axioms, one-shot epoll semantics as modelled.",
+   technique="Lean 4 inductive invariant over a small LTS + differential runs of the real adapter over socketpairs",
+   design="§6 C17")
+
 PENDING_REASON = "not claimed yet in this revision: model and theorems are being built (see DESIGN.md §12 build order); no check is registered rather than registering an unsound one"
 
 def main():
